@@ -1,6 +1,7 @@
 import NodisVerif.Model.Proto
 import NodisVerif.Proofs.ProtoWait
 import NodisVerif.Proofs.ProtoRelease
+import NodisVerif.Proofs.TxProgProgress
 /-
   C06 — every command completes: no deadlock.
 
@@ -208,5 +209,152 @@ example : ((runAll {} deadlockPrefix).bind (step · (.wait 2 "a" 1 .r))).isNone 
 /-- the release sequence of (5) on the chain: transaction 3 commits and goes, then 2 gets "c" -/
 example : (runAll {} (chainTrace ++ [.commit 3, .unlock 3 3, .fin 3, .lock 2 "c" 3 .w])).isSome = true := by
   decide
+
+/-! ## 7. the program level (work package T): lock order and blocking in the code of tx.go
+
+  `Model/TxProg.lean` models `Tx.acquire` / `lockKeys` / `newKey` / `delKey` / `commit` statement by statement with
+  explicit mutexes; `C05.prog_refines_proto` shows that every run of it is a run of the protocol.  Here: what that
+  gives for completion, and the lock order proved directly on program states. -/
+
+section ProgramLevel
+open NodisVerif.Proofs.TxProg
+
+/-- LOCK ORDER on the program model: a thread blocked in `m.Lock()` / `m.RLock()` (pc a8) holds only records
+    whose keys are smaller than the key it waits for; it owns no record mutex outside `tx.lockedMetas`, is outside
+    every `store.mu` section, and is in the sorted locking phase of its command (a call from the command body never
+    waits: it finds a record the transaction already holds) -/
+theorem blocked_waits_for_greater_key {c : TxProg.Cfg} (hr : ProgReachable c) {t : TxProg.Tid}
+    (hpc : (c.loc t).pc = .a8) :
+    (∀ g ∈ (c.loc t).held, g.key < (c.loc t).key) ∧ extra (c.loc t) = none ∧ (c.loc t).ret = .plan ∧
+    inW (c.loc t).pc = false ∧ inR (c.loc t).pc = false := by
+  obtain ⟨p, _, hst⟩ := hr.strong
+  exact blocked_holds_smaller hst hpc
+
+/-- TRANSFER of `no_deadlock`: the waits-for graph of the protocol state that abstracts a reachable program state
+    has no cycle, and a thread is blocked in a record lock (pc a8 / a9) exactly when its transaction is `waiting` there -/
+theorem prog_no_deadlock {c : TxProg.Cfg} (hr : ProgReachable c) :
+    ∃ p, Strong c p ∧ (∀ t l, ¬ Walk p t l t) ∧
+      ∀ t, (c.loc t).pc = .a8 → p.tx t =
+        some ⟨(c.loc t).held, some ((c.loc t).key, (c.loc t).m, TxProg.modeOf (c.loc t).write), false⟩ := by
+  obtain ⟨p, hp, hst⟩ := hr.strong
+  refine ⟨p, hst, fun t l => no_deadlock hp t l, fun t hpc => ?_⟩
+  have := hst.sim.tx_some t (by simp [hpc])
+  simpa [holdsOf, waitingOf, committingOf, hpc] using this
+
+/-- TRANSFER of `someone_can_move`: in the abstraction of a reachable program state with an active transaction,
+    some transaction is not waiting, or waits for a lock the protocol can grant now -/
+theorem prog_someone_can_move {c : TxProg.Cfg} (hr : ProgReachable c) {t : TxProg.Tid}
+    (hact : (c.loc t).pc ≠ .init) :
+    ∃ p, Strong c p ∧ ∃ u st, p.tx u = some st ∧
+      (st.waiting = none ∨ ∃ k r m, st.waiting = some (k, r, m) ∧ p.free r m = true) := by
+  obtain ⟨p, hp, hst⟩ := hr.strong
+  refine ⟨p, hst, someone_can_move hp ?_⟩
+  intro hnil
+  have := hst.sim.tx_some t hact
+  simp [PState.tx, hnil, assoc] at this
+
+/-- where the code can block at all: the seven mutex acquisitions (`s.mu.RLock` a1 a10, `s.mu.Lock` a4 n2 d1 c8, the
+    record lock a8); init / idle wait for the command's next call, a5 / d3 for a fresh object.  Every other
+    transition is enabled in every state: nothing inside a `store.mu` section waits for anything (`store.mu` is a
+    leaf lock), and `commit` waits for nothing but `store.mu` — "a failing command releases everything" -/
+theorem only_lock_acquisitions_block (c : TxProg.Cfg) (t : TxProg.Tid) (ch : TxProg.Choice)
+    (h : mayBlock (c.loc t).pc = false) : (TxProg.step c t ch).isSome = true :=
+  enabled_unless_mayBlock c t ch h
+
+/-- … and d2 (delKey under `store.mu`) is enabled in every reachable state: the record found in the index is
+    write-held by the transaction, the `unlink-unheld` branch of the code is never taken -/
+theorem delKey_never_unheld {c : TxProg.Cfg} (hr : ProgReachable c) {t : TxProg.Tid} (hpc : (c.loc t).pc = .d2)
+    (ch : TxProg.Choice) : (TxProg.step c t ch).isSome = true := by
+  obtain ⟨p, _, hst⟩ := hr.strong
+  exact delKey_not_stuck hst hpc ch
+
+/-- `store.mu` NEVER CLOSES A CYCLE: a thread that cannot get `store.mu` (any of the eight acquisition sites) is kept
+    out by another, active thread that is inside one of its sections, and that thread's next transition is enabled
+    (whenever the allocator offers a new object — `exists_fresh`: it always can).  The protocol model has no
+    `store.mu` at all; this is the part of "every command completes" that only the program model can state. -/
+theorem store_mutex_never_deadlocks {c : TxProg.Cfg} (hr : ProgReachable c) {t : TxProg.Tid} {ch : TxProg.Choice}
+    (hpc : smuAcquire (c.loc t).pc = true) (hblocked : TxProg.step c t ch = none) :
+    ∃ u, u ≠ t ∧ (c.loc u).pc ≠ .init ∧
+      ∀ ch', assoc c.sh.names ch'.fresh = none → (TxProg.step c u ch').isSome = true := by
+  obtain ⟨p, _, hst⟩ := hr.strong
+  exact blocked_on_smu_by_a_mover hst hpc hblocked
+
+/-- the owners of `store.mu` are exactly threads inside its sections: whoever is its writer / one of its readers is
+    at a program counter between the Lock / RLock and the matching Unlock / RUnlock, and can take its next step -/
+theorem store_mutex_owner_is_in_section {c : TxProg.Cfg} (hr : ProgReachable c) {u : TxProg.Tid}
+    (hown : c.sh.smu.writer = some u ∨ u ∈ c.sh.smu.readers) :
+    (inW (c.loc u).pc = true ∨ inR (c.loc u).pc = true) ∧
+    ∀ ch, assoc c.sh.names ch.fresh = none → (TxProg.step c u ch).isSome = true := by
+  obtain ⟨p, _, hst⟩ := hr.strong
+  refine ⟨?_, fun ch hf => (smu_holder_can_move hst hown ch hf).2⟩
+  rcases hown with h | h
+  · exact Or.inl ((hst.conv u).1 h)
+  · exact Or.inr ((hst.conv u).2 h)
+
+/-- hypotheses are satisfiable: thread 1 is inside `s.mu.Lock()` (pc a5, about to register its placeholder) while thread 2
+    asks for `s.mu.RLock()` (pc a1) and is kept out; thread 1 moves -/
+example : let c := (TxProg.run {} (moves 1 { call := .begin [("k", true, true)], fresh := 10 } 5 ++
+      moves 2 { call := .begin [("k", false, false)] } 3)).1
+    (c.loc 1).pc = .a5 ∧ smuAcquire (c.loc 2).pc = true ∧ TxProg.step c 2 {} = none ∧
+      (TxProg.step c 1 { fresh := 10 }).isSome = true := by decide
+
+theorem a_fresh_record_exists (c : TxProg.Cfg) : ∃ r, assoc c.sh.names r = none := exists_fresh c.sh.names
+
+/-- PROGRESS ON THE PROGRAM MODEL — no deadlock and no permanent stall over record mutexes and `store.mu` together:
+    in every reachable program state in which some transaction is active, some ACTIVE thread has an enabled
+    transition (for a suitable choice of the scheduler: a fresh object for an allocation, `commit` for a command body).
+    Proof: `someone_not_blocked` in the abstraction gives a transaction that is not waiting or waits for a record the
+    protocol considers free; such a thread moves, or is kept out of `store.mu` by a thread that moves
+    (`store_mutex_never_deadlocks`), or the record mutex is still owned by a thread that sits between a lock operation
+    and its event (`record_mutex_owner_is_accounted_for`) and therefore moves. -/
+theorem prog_progress {c : TxProg.Cfg} (hr : ProgReachable c) {t0 : TxProg.Tid} (hact : (c.loc t0).pc ≠ .init) :
+    ∃ t ch, (c.loc t).pc ≠ .init ∧ (TxProg.step c t ch).isSome = true := by
+  obtain ⟨p, _, hf⟩ := hr.full
+  exact full_progress hf hact
+
+/-- the converse of `C05.prog_hold_owns_mutex`: whoever is the writer / a reader of a record's mutex has a protocol
+    hold on the record in that mode, or is between `Lock` and its `lock` event / between the `unlock` event and
+    `Unlock` (`extra`); each thread is a reader of a mutex at most once -/
+theorem record_mutex_owner_is_accounted_for {c : TxProg.Cfg} (hr : ProgReachable c) (u : TxProg.Tid) (r : Rec) :
+    ((c.sh.mu r).writer = some u → (r, Mode.w) ∈ ownedList (c.loc u)) ∧
+    (u ∈ (c.sh.mu r).readers → (r, Mode.r) ∈ ownedList (c.loc u)) ∧ (c.sh.mu r).readers.Nodup := by
+  obtain ⟨p, _, hf⟩ := hr.full
+  exact ⟨(hf.conv u r).1, (hf.conv u r).2, hf.rnd r⟩
+
+/-- hypotheses are satisfiable: in the state of `C05`'s example thread 2 is blocked in `m.RLock()` and thread 1 moves -/
+example : let c := (TxProg.run {} (schedCreate.take 16)).1
+    (c.loc 2).pc ≠ .init ∧ TxProg.step c 2 {} = none ∧ (TxProg.step c 1 {}).isSome = true := by decide
+
+/-- a record lock that is free is granted: the Lock transition at a8 is enabled when nobody owns the mutex -/
+theorem free_record_lock_is_granted (c : TxProg.Cfg) (t : TxProg.Tid) (ch : TxProg.Choice)
+    (hpc : (c.loc t).pc = .a8) (hfree : (c.sh.mu (c.loc t).m).canLock = true) :
+    (TxProg.step c t ch).isSome = true := by
+  have hr : (c.sh.mu (c.loc t).m).canRLock = true := by
+    simp [TxProg.Mu.canLock] at hfree; simp [TxProg.Mu.canRLock, hfree.1]
+  unfold TxProg.step
+  simp only [TxProg.tstep, hpc]
+  cases hw : (c.loc t).write <;> simp [hfree, hr]
+
+/-- `lockKeys` (the `mode` map, then `sort.Strings` over its keys — `TxProg.lockPlan`) yields strictly increasing
+    keys, so `Call.begin (lockPlan write read)` is a command of the model for every `write`, `read` -/
+theorem lockKeys_plan_is_sorted (write read : List Key) :
+    TxProg.sortedPlan (TxProg.lockPlan write read) = true := lockPlan_sorted write read
+
+theorem lockKeys_can_begin (c : TxProg.Cfg) (t : TxProg.Tid) (hpc : (c.loc t).pc = .init) (write read : List Key)
+    (ch : TxProg.Choice) (hc : ch.call = .begin (TxProg.lockPlan write read)) : (TxProg.step c t ch).isSome = true :=
+  begin_lockPlan_enabled c t hpc write read ch hc
+
+example : TxProg.lockPlan ["b", "a"] ["c", "a"] = [("a", true, true), ("b", true, true), ("c", false, true)] := by decide
+
+/-- hypotheses are satisfiable: a multi-key command locks "a" then "b" (sorted), both through placeholders, and
+    its commit drops them: the read-held one by RUnlock + TryLock + drop, the write-held one directly -/
+example : (TxProg.run {} schedTwoKeys).2 =
+    [.begin 1, .look 1 "a" none, .claim 1 "a" 1 .w, .look 1 "b" none, .claim 1 "b" 2 .r, .commit 1,
+     .unlock 1 2, .trylock 1 "b" 2, .drop 1 "b" 2, .unlock 1 2, .drop 1 "a" 1, .unlock 1 1, .fin 1] := by decide
+
+/-- a plan that is not sorted is not a command of the model (lockKeys sorts) -/
+example : TxProg.step {} 1 { call := .begin [("b", true, true), ("a", true, true)] } = none := by decide
+
+end ProgramLevel
 
 end NodisVerif.C06
